@@ -64,6 +64,10 @@ def step (toks : List String) : String :=
       | some out => hexOfBytes out
       | none => "PANIC"
     | _, _, _, _, _, _, _, _ => "bad-op"
+  | ["hlcheck", stored, locs, frag] =>
+    match parseHexBytes stored, parseLocs locs, parseHexBytes frag with
+    | some stored, some locs, some frag => fragmentOK stored locs frag
+    | _, _, _ => "bad-op"
   | ["hdec", p] =>
     match parseHexBytes p with
     | some p => let a := decodeRune p; let b := decodeLastRune p
